@@ -9,6 +9,7 @@ import (
 	"os/exec"
 	"strings"
 	"sync"
+	"time"
 )
 
 type proc struct {
@@ -103,9 +104,40 @@ func Req(mode, op string, args ...[]byte) string {
 	return sb.String()
 }
 
+// Deadline: a request the driver has not answered after this long is abandoned (the extracted model is a
+// specification, not an algorithm); the process is killed and replaced. 0 = wait for ever.
+var Deadline time.Duration
+
 // Ask sends one request on worker w.
 func (p *Pool) Ask(w int, line string) string {
-	s, err := p.procs[w].ask(line)
+	pr := p.procs[w]
+	type ans struct {
+		s   string
+		err error
+	}
+	ch := make(chan ans, 1)
+	go func() {
+		s, err := pr.ask(line)
+		ch <- ans{s, err}
+	}()
+	var s string
+	var err error
+	if Deadline > 0 {
+		select {
+		case a := <-ch:
+			s, err = a.s, a.err
+		case <-time.After(Deadline):
+			pr.cmd.Process.Kill()
+			<-ch
+			if np, e2 := p.spawn(); e2 == nil {
+				p.procs[w] = np
+			}
+			return "DRIVER-TIMEOUT"
+		}
+	} else {
+		a := <-ch
+		s, err = a.s, a.err
+	}
 	if err != nil {
 		// driver died (stack overflow / exception): restart and report
 		pr, e2 := p.spawn()
